@@ -34,6 +34,14 @@ typedef struct gcase {
     uint32_t cseed;      /* content seed */
     int guard;           /* G_NA / G_RO */
     int fill2;           /* second slack-fill variant (metamorphic) */
+    /* explicit (enumerated) operand contents: symbol indices into a small alphabet; 0xff = not used */
+    uint8_t ex_on;
+    uint8_t ex_d[7];
+    uint8_t ex_s[7];
+    uint8_t pad_;
+    /* overlap placement (C07): src lies at dest + ov_off elements inside one arena object */
+    int ov_on;
+    long ov_off;
 } gcase_t;
 
 /* result of running a gcase */
